@@ -13,17 +13,40 @@
 (*            same    live state projection unchanged so far]              *)
 (* eol: the file's line ending.                                            *)
 (***************************************************************************)
-EXTENDS Integers, Sequences, Json, IOUtils, TLC, TLCExt
+EXTENDS Integers, Sequences, FiniteSets, Json, IOUtils, TLC, TLCExt
+
+SynthTxt == ""
+Dev == {"g92sign"}
+INSTANCE Stream
 
 ASSUME TLCSet(1, JsonDeserialize(IOEnv.TRACE_FILE))
 ASSUME TLCSet(2, <<>>)
 Traces == TLCGet(1)
 
-VARIABLES tid, i, verdict
-vars == <<tid, i, verdict>>
+VARIABLES tid, i, verdict, ss, t1
+vars == <<tid, i, verdict, ss, t1>>
 
 Ok == [c |-> "ok", s |-> 0, tag |-> ""]
-Init == tid \in 1..Len(Traces) /\ i = 1 /\ verdict = Ok
+Conform == [c |-> "conform", s |-> 0, f |-> ""]
+
+\* the processor starts from a copy of the live filter state; the model's copy is rebuilt by
+\* running Filter.tla over the same prefix (prefix events are recorded like TraceT1 events)
+RECURSIVE Replay(_, _, _)
+Replay(fs, evs, k) ==
+    IF k > Len(evs) THEN fs
+    ELSE LET ev == evs[k]
+         IN  IF ev.ev = "addr" THEN Replay([fs EXCEPT !.regs = Append(fs.regs, ev.reg)], evs, k + 1)
+             ELSE IF ev.ev = "g" /\ ev.hascode /\ ev.res # "exc" /\ Applicable(fs, ev.in)
+                  THEN Replay([HandleGcode(fs, ev.in).fs EXCEPT !.zt = 0, !.et = 0], evs, k + 1)
+             ELSE IF ev.ev = "at"
+                  THEN Replay(HandleAt(fs, ev.in.acts, ev.in.streaming).fs, evs, k + 1)
+             ELSE Replay(fs, evs, k + 1)
+
+ModelCf(t) == [g90e |-> t.cf.g90e, enter |-> t.cfx.enter, exit |-> t.cfx.exit,
+               xg |-> t.cf.xg, q |-> t.q]
+
+Init == /\ tid \in 1..Len(Traces) /\ i = 1 /\ verdict = Ok /\ t1 = Conform
+        /\ ss = SInit(Replay(FInit(ModelCf(Traces[tid]), <<>>), Traces[tid].prefix, 1))
 
 \* two command texts denote the same command: same code, same ordered words, same string part
 SameReading(a, b) ==
@@ -53,19 +76,60 @@ Clause(ev, eol) ==
         ELSE IF \E k \in 1..Len(ev.plines) : ev.plines[k].eol # eol THEN "C20.eol"
         ELSE ""
 
+(***************************************************************************)
+(* Conformance of the processor with Stream.tla (drift detection only)     *)
+(***************************************************************************)
+CmdSameT1(mo, lo, u) ==
+    IF mo.kind = "synth" /\ mo.code \in {"G10", "G11"} THEN lo.code = mo.code /\ lo.ptxt = mo.ptxt
+    ELSE IF mo.kind = "synth" THEN
+        /\ lo.code = mo.code /\ DOMAIN lo.wm = DOMAIN mo.wm
+        /\ \A l \in DOMAIN mo.wm : Val(lo, l, u) = mo.wm[l]
+    ELSE IF mo.kind = "merge" THEN
+        /\ lo.code = mo.code /\ DOMAIN lo.wm = DOMAIN mo.wm
+        /\ \A l \in DOMAIN mo.wm : lo.wm[l] = mo.wm[l]
+    ELSE IF mo.kind = "txt" THEN lo.txt = mo.txt
+    ELSE SameReading(mo, lo)      \* the input command itself, re-rendered by the parser
+
+StreamDiff(r, ev) ==
+    LET term == Terminator(r.ss)
+    IN  IF r.res = "verbatim" THEN (IF ev.none \/ ev.ret # ev.src THEN "stream.verbatim" ELSE "")
+        ELSE IF r.res = "drop" THEN (IF ev.none THEN "" ELSE "stream.drop")
+        ELSE IF ev.none THEN "stream.missing"
+        ELSE IF Len(ev.plines) # Len(r.out) THEN "stream.count"
+        ELSE IF \E k \in 1..Len(r.out) : ~CmdSameT1(r.out[k], ev.plines[k].cmd, r.ss.fs.funit)
+             THEN "stream.command"
+        ELSE IF \E k \in 1..Len(r.out) : ev.plines[k].eol # term THEN "stream.eol"
+        ELSE ""
+
 Step ==
     /\ i <= Len(Traces[tid].ev)
-    /\ LET d == Clause(Traces[tid].ev[i], Traces[tid].eol)
-       IN  verdict' = IF verdict.c = "ok" /\ d # "" THEN [c |-> d, s |-> i, tag |-> ""]
-                      ELSE verdict
+    /\ LET ev == Traces[tid].ev[i]
+           d == Clause(ev, Traces[tid].eol)
+       IN  /\ verdict' = IF verdict.c = "ok" /\ d # "" THEN [c |-> d, s |-> i, tag |-> ""]
+                          ELSE verdict
+           /\ IF t1.c # "conform" THEN UNCHANGED <<ss, t1>>
+              ELSE IF ev.line.kind = "g" /\ ~Applicable(ss.fs, ev.line.c)
+                   THEN /\ t1' = [c |-> "unmodelled", s |-> i, f |-> ev.line.c.code]
+                        /\ UNCHANGED ss
+              ELSE LET r0 == ProcessLine(ss, ev.line)
+                       alt == {tb \in {-1, 0, 1} \X {-1, 0, 1} :
+                                 StreamDiff(ProcessLine([ss EXCEPT !.fs.zt = tb[1], !.fs.et = tb[2]],
+                                                        ev.line), ev) = ""}
+                       r == IF StreamDiff(r0, ev) = "" \/ alt = {} THEN r0
+                            ELSE LET tb == CHOOSE tb \in alt : TRUE
+                                 IN  ProcessLine([ss EXCEPT !.fs.zt = tb[1], !.fs.et = tb[2]],
+                                                 ev.line)
+                       sd == StreamDiff(r, ev)
+                   IN  /\ ss' = [r.ss EXCEPT !.fs.zt = 0, !.fs.et = 0]
+                       /\ t1' = IF sd = "" THEN t1 ELSE [c |-> "diverged", s |-> i, f |-> sd]
     /\ i' = i + 1
     /\ UNCHANGED tid
 
 Done ==
     /\ i = Len(Traces[tid].ev) + 1
-    /\ TLCSet(2, Append(TLCGet(2), [id |-> Traces[tid].id, v |-> [C20 |-> verdict]]))
+    /\ TLCSet(2, Append(TLCGet(2), [id |-> Traces[tid].id, v |-> [C20 |-> verdict], t1 |-> t1]))
     /\ i' = i + 1
-    /\ UNCHANGED <<tid, verdict>>
+    /\ UNCHANGED <<tid, verdict, ss, t1>>
 
 Next == Step \/ Done
 Spec == Init /\ [][Next]_vars
